@@ -555,6 +555,9 @@ class GroupValueWrite(APCI):
         """Serialize to KNX/IP raw data."""
         if isinstance(self.value, DPTBinary):
             return encode_cmd_and_payload(self.CODE, encoded_payload=self.value.value)
+        if not self.value.value:
+            # would be indistinguishable from DPTBinary(0)
+            raise ConversionError("Empty DPTArray can not be serialized.")
 
         return encode_cmd_and_payload(
             self.CODE, appended_payload=bytes(self.value.value)
@@ -594,6 +597,9 @@ class GroupValueResponse(APCI):
         """Serialize to KNX/IP raw data."""
         if isinstance(self.value, DPTBinary):
             return encode_cmd_and_payload(self.CODE, encoded_payload=self.value.value)
+        if not self.value.value:
+            # would be indistinguishable from DPTBinary(0)
+            raise ConversionError("Empty DPTArray can not be serialized.")
         return encode_cmd_and_payload(
             self.CODE, appended_payload=bytes(self.value.value)
         )
